@@ -13,5 +13,6 @@ CONSTANTS
   BareUpdate = "off-dropped"
   Sizes = {0}
   ReadLimit = 0
+  OwnFrame = TRUE
 INVARIANTS ReadBack
 CHECK_DEADLOCK FALSE
